@@ -302,7 +302,8 @@ class Ctx:
             raise Infra("driver %s did not complete (rc=%s):\n%s" % (test, rc, out[-4000:]))
         if not done and mism:
             log("note: driver %s stopped early (rc=%s)" % (test, rc))
-        if rc != 0 and not mism:
+        mism_real = [r for r in mism if not r["sig"].startswith("note:")]
+        if rc != 0 and not mism_real:
             raise Infra("driver %s failed without a mismatch record (rc=%s):\n%s" % (test, rc, out[-4000:]))
         for r in recs:
             if r.get("k") == "sample":
@@ -313,6 +314,11 @@ class Ctx:
             if sig in seen:
                 continue
             seen.add(sig)
+            if sig.startswith("note:"):
+                # the implementation left the model's physical refinement (layout), but no observable the
+                # property talks about differs: recorded, not a violation (the behaviour is not judged further)
+                self.cov.setdefault("conformance_notes", []).append("%s: %s" % (sig, str(r.get("detail"))[:300]))
+                continue
             if self.match_known(sig) is None and confirm is not None and not self.replay:
                 if not confirm(r.get("replay")):
                     raise Infra("mismatch %s did not reproduce when replayed alone: %s" % (sig, r.get("detail")))
